@@ -64,6 +64,10 @@ func (r *Row) Add(c Cell) *Row {
 	}
 	r.cells = append(r.cells, c)
 	column := len(r.cells)
+	if r.inTable != nil {
+		// the row already belongs to a table: keep its column count in step
+		r.inTable.resizeColumnsAtLeast(column)
+	}
 	ptr := &r.cells[column-1]
 	ptr.inRow = r
 	ptr.columnNum = column
